@@ -60,7 +60,8 @@ func (cache *CacheLRU) GetTime(key string) (int64, error) {
 
 func (cache *CacheLRU) Flush() {
 	clear(cache.keys)
-	clear(cache.entries)
+	// Empty the heap; clear() on a slice would only zero its elements and keep its length.
+	cache.entries = make([]*EntryLRU, 0)
 }
 
 func (cache *CacheLRU) Len() int {
